@@ -14,17 +14,19 @@ SHRINK_S = {"quick": 30, "thorough": 120}
 CALCS = ["runpp", "runpp_bfsw", "runpp_qlims", "rundcpp", "runopp", "rundcopp", "runpp_3ph", "calc_sc_3ph", "calc_sc_2ph",
          "calc_sc_1ph", "calc_sc_min_branch", "estimate", "run_contingency", "run_control"]
 NATURAL = ["none", "no-slack", "df-zero", "nan-parameter", "unknown-algorithm", "overload", "zip-over-100", "conflicting-setpoints"]
-RULE = ("Hypothesis draws a network recipe (dclines, tap-table transformers, short-circuit / zero-sequence / OPF / measurement "
+RULE = ("Enumerated part: EVERY distinct crash point (function x first/last call x before/after) of the recorded call trace of fixed networks (dcline, tap table, 3W transformer) for 3 (quick) / all 14 x 2 (thorough) calculations. Generated part: Hypothesis draws a network recipe (dclines, tap-table transformers, short-circuit / zero-sequence / OPF / measurement "
         "data, tap controller), one calculation of " + ", ".join(CALCS) + " and a fault: none | natural (" + ", ".join(NATURAL[1:]) +
         ") | injected = InjectedFault raised before/after the n-th call of a pipeline function chosen from the recorded call "
         "trace of a fault-free run of the same calculation (pbt/faults.py wraps every plain-Python function of the pipeline "
         "modules). Oracle: deep snapshot of all input tables before, calculation inside try/except, comparison after: no changed "
         "pre-existing value, no added/removed rows, same std_types/user options. Non-trivial = the calculation raised, or the net "
         "contains a dcline / tap table; distinct by case hash (recipe, calculation, fault point).")
-ASSUMPTIONS = ["crash points are enumerated at function-call granularity of the Python pipeline (not inside numba/scipy kernels)",
+ASSUMPTIONS = ["a fault injected on entry of the restoring function itself (auxiliary._clean_up) is counted and not judged",
+               "crash points are enumerated at function-call granularity of the Python pipeline (not inside numba/scipy kernels)",
                "added columns are not violations (the property speaks of values and rows); dtype-only changes are ignored",
                "b2b VSC / DC buses are not generated yet"]
 
+CLEANUP_CODE = {"auxiliary._clean_up"}
 PROFILE = netgen.profile(dcline=True, oos=0.04, open_prob=0.15, nb_max=8, max_per_bus=2, second_slack=False, noslack_island=False,
                          trafo3w=True, custom_index=True,
                          bus_kinds={"load": 5, "sgen": 3, "gen": 2, "storage": 1, "shunt": 1, "ward": 1, "xward": 1, "motor": 1,
@@ -47,6 +49,67 @@ def _case(draw, tier):
 
 def strategy(tier):
     return _case(tier)
+
+
+def _line(a, b, vn=110.0):
+    L = netgen.LEVELS[vn]
+    return {"t": "line", "from_bus": a, "to_bus": b, "length_km": L["l"][0] * 2, "r_ohm_per_km": L["r"][0], "x_ohm_per_km": L["x"][0],
+            "c_nf_per_km": 10.0, "max_i_ka": L["i"][1]}
+
+
+FIXED_RECIPES = [
+    # 110/20 kV feeder with a dcline, a PV gen, a tap-changer transformer (gets the tap table) and an impedance switch
+    {"sn_mva": 1.0, "f_hz": 50.0, "buses": [{"vn_kv": 110.0}, {"vn_kv": 110.0}, {"vn_kv": 110.0}, {"vn_kv": 20.0}, {"vn_kv": 20.0}],
+     "el": [_line(0, 1), _line(1, 2), _line(3, 4, 20.0),
+            {"t": "trafo", "hv_bus": 2, "lv_bus": 3, "sn_mva": 25.0, "vn_hv_kv": 110.0, "vn_lv_kv": 20.0, "vk_percent": 12.0, "vkr_percent": 0.4,
+             "pfe_kw": 14.0, "i0_percent": 0.07, "shift_degree": 0.0, "tap_changer_type": "Ratio", "tap_side": "hv", "tap_neutral": 0,
+             "tap_min": -4, "tap_max": 4, "tap_step_percent": 1.25, "tap_pos": 1},
+            {"t": "ext_grid", "bus": 0, "vm_pu": 1.01, "va_degree": 0.0},
+            {"t": "gen", "bus": 2, "p_mw": 5.0, "vm_pu": 1.0, "min_q_mvar": -3.0, "max_q_mvar": 3.0},
+            {"t": "load", "bus": 1, "p_mw": 8.0, "q_mvar": 2.0, "const_z_p_percent": 30.0}, {"t": "load", "bus": 4, "p_mw": 2.0, "q_mvar": 0.5},
+            {"t": "sgen", "bus": 4, "p_mw": 0.5, "q_mvar": 0.0}, {"t": "shunt", "bus": 3, "q_mvar": -0.5, "p_mw": 0.0},
+            {"t": "dcline", "from_bus": 0, "to_bus": 2, "p_mw": 3.0, "loss_percent": 1.0, "loss_mw": 0.01, "vm_from_pu": 1.01, "vm_to_pu": 1.0},
+            {"t": "switch", "et": "l", "bus": 1, "element": 1, "closed": True}]},
+    # three voltage levels with a three-winding transformer and an xward
+    {"sn_mva": 10.0, "f_hz": 50.0, "buses": [{"vn_kv": 110.0}, {"vn_kv": 110.0}, {"vn_kv": 20.0}, {"vn_kv": 0.4}, {"vn_kv": 20.0}],
+     "el": [_line(0, 1), _line(2, 4, 20.0),
+            {"t": "trafo3w", "hv_bus": 1, "mv_bus": 2, "lv_bus": 3, "vn_hv_kv": 110.0, "vn_mv_kv": 20.0, "vn_lv_kv": 0.4, "sn_hv_mva": 40.0,
+             "sn_mv_mva": 25.0, "sn_lv_mva": 1.0, "vk_hv_percent": 10.0, "vk_mv_percent": 11.0, "vk_lv_percent": 9.0, "vkr_hv_percent": 0.3,
+             "vkr_mv_percent": 0.3, "vkr_lv_percent": 0.3, "pfe_kw": 20.0, "i0_percent": 0.1, "shift_mv_degree": 0.0, "shift_lv_degree": 0.0},
+            {"t": "ext_grid", "bus": 0, "vm_pu": 1.0, "va_degree": 0.0}, {"t": "load", "bus": 4, "p_mw": 3.0, "q_mvar": 1.0},
+            {"t": "load", "bus": 3, "p_mw": 0.2, "q_mvar": 0.05}, {"t": "storage", "bus": 2, "p_mw": -0.5, "q_mvar": 0.0, "max_e_mwh": 1.0},
+            {"t": "xward", "bus": 4, "ps_mw": 0.3, "qs_mvar": 0.1, "pz_mw": 0.2, "qz_mvar": 0.05, "r_ohm": 0.5, "x_ohm": 4.0, "vm_pu": 1.0},
+            {"t": "dcline", "from_bus": 0, "to_bus": 1, "p_mw": 2.0, "loss_percent": 0.5, "loss_mw": 0.0, "vm_from_pu": 1.0, "vm_to_pu": 1.0}]},
+]
+ENUM_CALCS = {"quick": [(0, "runpp"), (0, "runopp"), (0, "calc_sc_1ph")],
+              "thorough": [(r, c) for r in (0, 1) for c in CALCS]}
+_ENUM_CACHE = {}
+
+
+def enumerate_cases(tier):
+    """every distinct crash point (function x first/last occurrence x before/after) of the recorded fault-free call trace
+    of fixed networks with a dcline and a tap table"""
+    if tier in _ENUM_CACHE:
+        return _ENUM_CACHE[tier]
+    faults.install()
+    cases = []
+    for ri, calc in ENUM_CALCS[tier]:
+        base = {"recipe": FIXED_RECIPES[ri], "calc": calc, "fault": {"kind": "none"}, "tap_table": True, "sel": 3}
+        try:
+            net, maps = netgen.build(decorate(base["recipe"]))
+            prepare(net, maps, base)
+            with silence(), faults.recording() as st_:
+                try:
+                    runner(calc, "none")(net)
+                except BaseException:
+                    pass
+            trace = list(st_.trace)
+        except Exception:
+            trace = []
+        for name, n, when in faults.distinct_points(trace):
+            cases.append(dict(base, fault={"kind": "injected", "name": name, "n": n, "when": when}))
+    _ENUM_CACHE[tier] = cases
+    return cases
 
 
 def decorate(recipe):
@@ -225,8 +288,15 @@ def check(case):
         if not trace:
             res.skipped = "empty-trace"
             return res
-        name, n = trace[fault["point"] % len(trace)]
+        if "name" in fault:      # enumerated crash point
+            name, n = fault["name"], fault["n"]
+        else:
+            name, n = trace[fault["point"] % len(trace)]
         plan = (name, n, fault["when"])
+        if name in CLEANUP_CODE and fault["when"] == "before":
+            # a crash on entry of the restoring code itself cannot be recovered by that code: counted, not judged
+            res.skipped = "fault-inside-cleanup-code"
+            return res
         res.label("inject:" + name.split(".")[0])
     snap = oracles.snapshot(net)
     raised = None
